@@ -658,6 +658,19 @@ class MpDeSuite(Suite):
                 i2 = rng.randrange(len(b))
                 b[i2] = rng.choice([0xC1, b[i2] ^ (1 << rng.randrange(8)), rng.getrandbits(8)])
                 cases.append(Case("%s 0 20 - %s" % (self.op(), hx(bytes(b))), kind="corrupt"))
+        # keys and strings of exactly the longest storable length, one less and one more, in every header width that can announce them
+        maxlen = 2 ** (8 * self.cfg.get("STRING_LENGTH_SIZE", 2)) - 1
+        if maxlen <= 65535:
+            for ln in (maxlen - 1, maxlen, maxlen + 1):
+                hdrs = ([b"\xd9" + bytes([ln])] if ln < 256 else []) + ([b"\xda" + ln.to_bytes(2, "big")] if ln < 65536 else []) + [b"\xdb" + ln.to_bytes(4, "big")]
+                for hd in hdrs:
+                    key = bytes([0x61 + (j % 26) for j in range(ln)])
+                    for data, v in ((b"\x81" + hd + key + b"\x01", ("map", [(("str", key), ("int", 1))])), (b"\x82\xa1k\x02" + hd + key + b"\x91\xc0", ("map", [(("str", b"k"), ("int", 2)), (("str", key), ("arr", [("nil",)]))])),
+                                    (b"\x91" + hd + key, ("arr", [("str", key)]))):
+                        if ln <= maxlen:
+                            cases.append(Case("%s 0 20 - %s" % (self.op(), hx(data)), kind="valid", value=v, data=data))
+                        else:
+                            cases.append(Case("%s 0 20 - %s" % (self.op(), hx(data)), kind="toolong"))
         for k in [b"\xc0", b"\x01", b"\xc3", b"\x90", b"\x80", b"\xca\x00\x00\x00\x00", b"\xc4\x01a", b"\xd4\x01a", b"\xcc\x05", b"\xff"]:
             cases.append(Case("%s 0 20 - %s" % (self.op(), hx(b"\x81" + k + b"\x01")), kind="badkey"))
         for pre in [b"", b"\x91", b"\x92\x01", b"\x81\xa1k", b"\xdc\x00\x01"]:
@@ -729,6 +742,8 @@ class MpDeSuite(Suite):
                 return ("mpde:memory-bound", "%d bytes requested after consuming %d bytes of %s (bound %d)" % (req[0], consumed, case.line[:80], bound))
         if k == "huge" and f[0] not in ("IncompleteInput", "NoMemory"):
             return ("mpde:huge", "a header announcing a huge length or count gave %s: %s" % (f[0], case.line))
+        if k == "toolong" and f[0] != "NoMemory":
+            return ("mpde:toolong", "a string or key one byte longer than the longest storable one gave %s: %s" % (f[0], case.line[:60]))
         if k == "c1" and f[0] != "InvalidInput":
             return ("mpde:c1", "reserved code 0xC1 gave " + f[0])
         if k == "badkey" and f[0] != "InvalidInput":
@@ -1107,6 +1122,8 @@ class FilterSuite(Suite):
                         extra = ([b"NaN"] if self.cfg.get("ENABLE_NAN") else []) + ([b"Infinity", b"-Infinity"] if self.cfg.get("ENABLE_INFINITY") else [])
                         if extra and rng.random() < 0.3:
                             return rng.choice(extra)
+                        if rng.random() < 0.04:
+                            return rng.choice([b"1" * 64, b"0." + b"3" * 70, b"7" * 63, b"-1e" + b"0" * 64 + b"2"])      # too long to be stored, not too long to be skipped
                         return rng.choice([b"1", b"-2", b"1.5", b'"x"', b"true", b"false", b"null", b'"\\u00e9"', b"12345678901234567890", b'""'])
                     if r < 0.75:
                         return b"[" + b",".join(jv(d + 1) for _ in range(rng.choice([0, 1, 2, 3]))) + b"]"
@@ -1765,6 +1782,16 @@ class MpDocSuite(JsonDocSuite):
             for pre in (0, 1):
                 for f in fails:
                     cases.append(Case("mpdoc 10 %d %s %s" % (pre, f, hexs_), text=bytes.fromhex(hexs_), fail=f))
+        # keys, strings and binaries of exactly the longest storable length, one less, one more (the model takes the limit from the geometry fields of the line)
+        maxlen = 2 ** (8 * self.cfg.get("STRING_LENGTH_SIZE", 2)) - 1
+        if maxlen <= 65535:
+            for ln in (maxlen - 1, maxlen, maxlen + 1):
+                hdrs = (["d9%02x" % ln] if ln < 256 else []) + (["da%04x" % ln] if ln < 65536 else []) + ["db%08x" % ln]
+                for hd in hdrs:
+                    body = "6b" * ln
+                    for hexs_ in ("81" + hd + body + "01", "82a16b02" + hd + body + "91c0", "91" + hd + body, "81" + hd + body):
+                        for f in ("-", "a1", "a2", "a3"):
+                            cases.append(Case("mpdoc 10 0 %s %s" % (f, hexs_), text=bytes.fromhex(hexs_), fail=f))
         for _ in range(n):
             v = mpack.gen_value(rng, dup_keys=True)
             data = mpack.encode(v, rng)
@@ -1845,6 +1872,16 @@ class StreamSuite(Suite):
                     # the same stream read with a filter: discarded parts are skipped, and must be skipped exactly
                     flt = gen_filter(rng, keys=(b"a", b"b", b"k", b""))
                     cases.append(Case("streamf %d 20 %d %s %s" % (cb, rng.choice([0, 1, 3]), hx(flt), hx(data)), fmt="jf", docs=list(docs), parts=parts))
+                if i % 97 == 0:
+                    # numbers too long to be STORED (64 bytes and more) in parts the filter discards: they are skipped whatever their length
+                    longs = [b"1" * rng.choice([64, 65, 100, 300]), b"0." + b"3" * rng.choice([62, 63, 80]), b"-12e" + b"0" * 70 + b"1", b"9" * 63 + b".5"]
+                    fparts, fdocs = [], []
+                    for txt in (b'{"a":' + rng.choice(longs) + b',"k":1}', b"[" + rng.choice(longs) + b",2]", b'{"k":{"a":1},"b":[' + rng.choice(longs) + b"," + rng.choice(longs) + b']}',
+                                b'{"z":{"y":' + rng.choice(longs) + b'}}', b'{"k":2}'):
+                        sep = rng.choice([b"\n", b" ", b"\r\n", b""])
+                        fparts.append(txt + sep)
+                        fdocs.append((None, len(txt), False))
+                    cases.append(Case("streamf %d 20 %d %s %s" % (cb, rng.choice([0, 1, 3]), hx(b'{"k":true}'), hx(b"".join(fparts))), fmt="jf", docs=fdocs, parts=fparts))
             else:
                 vals = [mpack.gen_value(rng, maxdepth=3) for _ in range(k)]
                 encs = [mpack.encode(v, rng) for v in vals]
